@@ -429,6 +429,30 @@ fn immut(rng: &mut StdRng) -> Value {
     json!({"seeds": seeds, "steps": steps, "tag": "immut", "final": true})
 }
 
+/// MissingOpMode: partial_relaxed on expressions with binary operators that have no differentiation rule (max, min, atan2)
+fn relaxed(rng: &mut StdRng) -> Value {
+    let pool = ["x max y", "x*y min z", "(x+1) max (y*2)", "sin(x) max y", "x atan2 y", "x*2 + (y max x)*z", "(x min y)/(z+1)", "x max y max z",
+                "x*y+z", "cos(x*y) min (x-z)", "(x atan2 (y*z))*x", "x/y", "z"];
+    let mut seeds = vec![];
+    for _ in 0..rng.random_range(1..=3) {
+        seeds.push(json!({"text": cps(pool.choose(rng).unwrap()), "form": if rng.random_bool(0.5) { "flat" } else { "deep" }}));
+    }
+    let mut size = seeds.len();
+    let mut steps = vec![];
+    for _ in 0..rng.random_range(2..=5) {
+        let i = rng.random_range(1..=size);
+        let st = if rng.random_bool(0.85) {
+            let mode = *["per_operand", "none", "error", "per_operand", "none"].choose(rng).unwrap();
+            json!({"act": "partial_relaxed", "i": i, "k": rng.random_range(0..4), "mode": mode})
+        } else {
+            json!({"act": if rng.random_bool(0.5) { "to_deep" } else { "to_flat" }, "i": i})
+        };
+        steps.push(st);
+        size += 1;
+    }
+    json!({"seeds": seeds, "steps": steps, "tag": "relaxed"})
+}
+
 /// more variables than any fixed-width bookkeeping has bits for (129..200 distinct names in one expression): partial
 /// substitution maps (some names replaced, some kept), conversion and operator application on the result
 fn hugevars(rng: &mut StdRng) -> Value {
@@ -675,6 +699,7 @@ pub fn main(args: &[String]) -> i32 {
             "manyvars" => manyvars(&mut rng),
             "dvars" => dvars(&mut rng),
             "immut" => immut(&mut rng),
+            "relaxed" => relaxed(&mut rng),
             "floatcomp" => floatcomp(&mut rng),
             "valdiff" => valdiff(&mut rng),
             _ => ops(&mut rng, &["op", "std", "conv", "subs", "print", "partial"]),
